@@ -3,6 +3,7 @@ package checks
 import (
 	"errors"
 	"fmt"
+	"math"
 	"reflect"
 	"regexp"
 	"strings"
@@ -40,6 +41,10 @@ func c04Kinds() []c04Kind {
 	return []c04Kind{
 		{"int", reflect.TypeOf(0), []c04Val{{0, 0, false}, {2, 2, false}, {5, 5, false}, {-1, -1, false}}, numTags},
 		{"uint8", reflect.TypeOf(uint8(0)), []c04Val{{uint8(0), 0, false}, {uint8(2), 2, false}, {uint8(5), 5, false}}, numTags},
+		{"int64", reflect.TypeOf(int64(0)), []c04Val{{int64(0), 0, false}, {int64(9007199254740992), int64(9007199254740992), false}, {int64(9007199254740993), int64(9007199254740993), false}, {int64(-9007199254740993), int64(-9007199254740993), false}, {int64(math.MaxInt64), int64(math.MaxInt64), false}},
+			[]string{"", "max=9007199254740992", "min=-9007199254740992", "min=9007199254740993", "max=9223372036854775806"}},
+		{"uint64", reflect.TypeOf(uint64(0)), []c04Val{{uint64(0), 0, false}, {uint64(math.MaxUint64), uint64(math.MaxUint64), false}, {uint64(math.MaxUint64 - 1), uint64(math.MaxUint64 - 1), false}, {uint64(9007199254740993), uint64(9007199254740993), false}},
+			[]string{"", "max=18446744073709551614", "min=18446744073709551615", "max=9007199254740992"}},
 		{"float64", reflect.TypeOf(0.0), []c04Val{{0.0, 0.0, false}, {2.5, 2.5, false}, {5.5, 5.5, false}, {-1.5, -1.5, false}}, numTags},
 		{"string", reflect.TypeOf(""), []c04Val{{"", "", false}, {"s", "s", false}}, []string{"", "required", "nonzero", "min=1"}},
 		{"duration", reflect.TypeOf(time.Duration(0)), []c04Val{{time.Duration(0), "0s", false}, {3 * time.Second, "3s", false}, {time.Second, 1, false}, {2 * time.Minute, "2m", false}, {-time.Second, "-1s", false}, {300 * time.Millisecond, "300ms", false}, {1500 * time.Millisecond, 1.5, false}},
@@ -537,6 +542,20 @@ type dGoodLimits map[string]dLimit
 
 func (l dGoodLimits) InitDefaults() { l["default"] = dLimit{Max: 4} }
 
+// a named primitive whose Validate has a pointer receiver
+type vPtrInt int
+
+func (v *vPtrInt) Validate() error {
+	if *v == 13 {
+		return errors.New("13 is not allowed")
+	}
+	return nil
+}
+
+type dPorts map[string]vPtrInt
+
+func (p dPorts) InitDefaults() { p["fallback"] = 13 }
+
 type c04CatCase struct {
 	Name    string
 	Target  func() interface{}
@@ -561,6 +580,12 @@ func c04Catalogue() *core.Space {
 	type D2 struct{ X dBad }
 	type D3 struct{ X *dBad }
 	type D4 struct{ L []dBad }
+	type P1 struct{ L []vPtrInt }
+	type P2 struct{ M map[string]vPtrInt }
+	type P3 struct{ A [2]vPtrInt }
+	type P4 struct{ P *struct{ L []vPtrInt } }
+	type P5 struct{ X vPtrInt }
+	type P6 struct{ Ports dPorts }
 	type D5 struct{ Limits dLimits }
 	type D6 struct{ Weights dWeights }
 	type D7 struct{ Limits dGoodLimits }
@@ -606,6 +631,17 @@ func c04Catalogue() *core.Space {
 		{"map InitDefaults adds an entry its Validate rejects, pre-allocated map", func() interface{} { return &D6{Weights: dWeights{}} }, M{"weights": M{"a": 3}}, true},
 		{"map InitDefaults invalid Validate entry replaced by a valid setting", func() interface{} { return &D6{Weights: dWeights{}} }, M{"weights": M{"fallback": 3}}, false},
 		{"map InitDefaults adds a valid entry", func() interface{} { return &D7{} }, M{"limits": M{"custom": M{"max": 5}}}, false},
+		{"pointer-receiver Validate: field from config rejected", func() interface{} { return &P5{} }, M{"x": 13}, true},
+		{"pointer-receiver Validate: pre-filled field rejected", func() interface{} { return &P5{X: 13} }, M{"y": 1}, true},
+		{"pointer-receiver Validate: slice element from config rejected", func() interface{} { return &P1{} }, M{"l": L{1, 13}}, true},
+		{"pointer-receiver Validate: pre-filled slice element rejected, field absent from config", func() interface{} { return &P1{L: []vPtrInt{1, 13}} }, M{"y": 1}, true},
+		{"pointer-receiver Validate: pre-filled map value rejected, field absent from config", func() interface{} { return &P2{M: map[string]vPtrInt{"k": 13}} }, M{"y": 1}, true},
+		{"pointer-receiver Validate: pre-filled array element rejected, field absent from config", func() interface{} { return &P3{A: [2]vPtrInt{1, 13}} }, M{"y": 1}, true},
+		{"pointer-receiver Validate: slice below a pre-filled pointer that receives no setting", func() interface{} { return &P4{P: &struct{ L []vPtrInt }{L: []vPtrInt{13}}} }, M{"y": 1}, true},
+		{"pointer-receiver Validate: valid pre-filled elements accepted", func() interface{} { return &P1{L: []vPtrInt{1, 2}} }, M{"y": 1}, false},
+		{"pointer-receiver Validate: untouched pre-filled tail element rejected", func() interface{} { return &P1{L: []vPtrInt{1, 13}} }, M{"l": L{2}}, true},
+		{"map InitDefaults adds an entry rejected by a pointer-receiver Validate, field absent from config (the map is created and initialised all the same)", func() interface{} { return &P6{} }, M{"y": 1}, true},
+		{"map InitDefaults adds an entry rejected by a pointer-receiver Validate, pre-allocated map", func() interface{} { return &P6{Ports: dPorts{}} }, M{"y": 1}, true},
 		{"top-level map with InitDefaults adding an invalid entry", func() interface{} { m := dLimits{}; return &m }, M{"custom": M{"max": 5}}, true},
 	}
 	return &core.Space{
